@@ -94,7 +94,8 @@ pub fn process_indels<IntT: for<'a> UInt<'a>>(
                 .collect();
 
             // sort by frequency (descending) to find the most frequent variant
-            variants.sort_by(|a, b| b.1.cmp(&a.1));
+            // (ties broken by the allele itself so REF/ALT do not swap between runs)
+            variants.sort_by(|a, b| b.1.cmp(&a.1).then_with(|| a.0.cmp(&b.0)));
 
             let (ref_allele, _ref_count, ref_bitset) = &variants[0]; // most frequent (REF)
             let (alt_allele, _alt_count, alt_bitset) = &variants[1]; // less frequent (ALT)
